@@ -70,7 +70,7 @@ package dns
 //@   assert at "if &buf[0] != &mbuf[0] {" inplace: ref(buf) == ref(mbuf) && sliceoff(buf) == sliceoff(mbuf)
 
 // the signing helpers build their results in fresh memory and leave every caller buffer alone
-//@ func intToBytes [C18 C10 C17]
+//@ func intToBytes [C18 C10 C17 C10 C17]
 //@   opt no-safety
 //@   exit pad: len(buf) < length ==> len(ret0) == length
 //@   exit asis: len(buf) >= length ==> same(ret0, buf)
